@@ -65,6 +65,7 @@ class Rec:
         self.in_init = 0
         self.last_heq = None
         self.static_key = "?"
+        self.refused: list = []
 
     def fid(self, coords):
         key = tuple((float(p[0]), float(p[1])) for p in coords)
@@ -746,6 +747,49 @@ def load_list(kind, scale):
     return [x * scale for x in base]
 
 
+SLOT_ATTRS = ("_fluid", "_grout", "_soil", "_pipe", "pipe_type", "_borehole", "_simulation_parameters", "_ground_loads", "geom_type",
+              "_geometric_constraints", "_design", "_search")
+
+
+def dump_state(mg):
+    """Full observable state of a manager: for every slot the identity of the object it holds and its `to_input`-style
+    content (enum members by name)."""
+    import enum
+
+    d = {}
+    for a in SLOT_ATTRS:
+        o = getattr(mg, a, "<missing>")
+        if o is None or isinstance(o, (enum.Enum, str)):
+            d[a] = repr(o)
+            continue
+        entry = [id(o)]
+        if hasattr(o, "to_input"):
+            try:
+                entry.append(json.dumps(o.to_input(), sort_keys=True, default=str))
+            except Exception as e:  # the dump itself must not decide anything
+                entry.append("to_input raised " + type(e).__name__)
+        if a == "_borehole":
+            entry.append([repr(float(o.H)), repr(float(o.D)), repr(float(o.r_b))])
+        if a == "_ground_loads":
+            entry.append([len(o), hashlib.sha1(repr(list(o[:50])).encode()).hexdigest()])
+        if a == "_simulation_parameters":
+            entry.append(sorted((k, repr(v)) for k, v in vars(o).items()))
+        d[a] = entry
+    return d
+
+
+def refusing_call(mg, name, pay):
+    """Make a call that must be refused; returns ('refused' | 'accepted', how)."""
+    throw = bool(pay[-1])
+    call = {"ptype_bad": lambda: mg.set_pipe_type(pay[0], throw=throw), "gtype_bad": lambda: mg.set_design_geometry_type(pay[0], throw=throw),
+            "fluid_bad": lambda: mg.set_fluid(pay[0], 0.0, throw=throw), "design_bad": lambda: mg.set_design(pay[0], pay[1], throw=throw)}[name]
+    try:
+        rc = call()
+    except ValueError:
+        return "refused", "raised ValueError"
+    return ("refused", "returned 1") if rc != 0 else ("accepted", "returned 0")
+
+
 def do_step(managers, step, rec):
     """Execute one history step on the real managers; return (op token for the model, outcome)."""
     from ghedesigner.manager import GHEManager
@@ -757,7 +801,22 @@ def do_step(managers, step, rec):
     m = step[1]
     mg = managers[m]
     pay = step[2] if len(step) > 2 else None
+    if name in ("ptype_bad", "gtype_bad", "fluid_bad", "design_bad"):
+        before = dump_state(mg)
+        verdict, how = refusing_call(mg, name, pay)
+        after = dump_state(mg)
+        changed = {a: [before[a], after[a]] for a in SLOT_ATTRS if before[a] != after[a]}
+        rec.refused.append({"call": name, "args": [str(x) for x in pay], "m": m, "verdict": verdict, "how": how, "changed": changed})
+        token = {"ptype_bad": f"ptype:{m}:-", "gtype_bad": f"gtype:{m}:NOSUCHGEOMETRY", "fluid_bad": f"fluid:{m}:BAD{tok('F', pay[0])}",
+                 "design_bad": f"design:{m}:{core.rs(pay[0]) if name == 'design_bad' else 0}:SIDEWAYS"}[name]
+        return token, "refused" if verdict == "refused" else "ok"
     try:
+        if name == "ptype":
+            mg.set_pipe_type(pay)
+            return f"ptype:{m}:{pay}", "ok"
+        if name == "gtype":
+            mg.set_design_geometry_type(pay)
+            return f"gtype:{m}:{pay}", "ok"
         if name == "fluid":
             mg.set_fluid(pay[0], pay[1])
             return f"fluid:{m}:{tok('F', pay)}", "ok"
@@ -789,7 +848,15 @@ def do_step(managers, step, rec):
             return f"design:{m}:{core.rs(pay[0])}:{pay[1]}", "ok"
         if name == "find":
             rec.script = []
-            mg.find_design()
+            before = dump_state(mg)
+            try:
+                mg.find_design()
+            except ValueError:
+                if not rec.script:   # refused by find_design's own test, before any search: nothing may have changed
+                    after = dump_state(mg)
+                    changed = {a: [before[a], after[a]] for a in SLOT_ATTRS if before[a] != after[a]}
+                    rec.refused.append({"call": "find_design", "args": [], "m": m, "verdict": "refused", "how": "raised ValueError", "changed": changed})
+                raise
             return f"find:{m}", "ok"
     except Exception as e:
         if name == "design":
@@ -842,6 +909,11 @@ def mgr_worker(job):
     os.environ["OMP_NUM_THREADS"] = "1"
     warnings.filterwarnings("ignore")
     rec = Rec()
+    import io
+
+    import ghedesigner.manager as _gm
+
+    _gm.stderr = io.StringIO()   # the manager reports refused calls on stderr (process-local: this is a worker)
     managers, ops, finds, strats, brents = [], [], [], {}, {}
     cur = {}   # manager index -> (cfg, flow, ft) of the last set_design
     out = {"name": job["name"], "finds": finds}
@@ -878,7 +950,7 @@ def mgr_worker(job):
     import ghedesigner
 
     out.update({"ops": ops, "strats": strats, "brents": brents, "trace": [{k: v for k, v in t.items() if k != "id"} for t in rec.trace],
-                "bad": job.get("bad", []), "module": ghedesigner.__file__})
+                "bad": job.get("bad", []), "module": ghedesigner.__file__, "refused": rec.refused})
     return out
 
 
@@ -918,6 +990,22 @@ def variants(cfg, other, rng, n_perm, tier):
         jobs.append({"name": f"permuted-setters-{k}", "steps": [("new",)] + full_run(0, cfg, order=order, junk=junk, target=True), "order": order})
     jobs.append({"name": "other-design-first-same-manager", "steps": [("new",)] + full_run(0, other) + full_run(0, cfg, target=True)})
     jobs.append({"name": "other-design-first-other-manager", "steps": [("new",)] + full_run(0, other) + [("new",)] + full_run(1, cfg, target=True)})
+    # refused calls interleaved between the accepted ones, before and after set_design; find_design on a manager that is not ready
+    for k in range(1 if tier == "quick" else 2):
+        steps = [("new",)]
+        for st in full_run(0, cfg, target=True):
+            if st[0] == "design":
+                steps += [("design_bad", 0, (cfg["flow"], "SIDEWAYS", rng.random() < 0.5)), ("new",), ("find", 1, False)]
+            if st[0] == "find":
+                steps += [("design_bad", 0, (cfg["flow"], "SIDEWAYS", rng.random() < 0.5)), ("ptype_bad", 0, ("coax", rng.random() < 0.5))]
+            steps.append(st)
+            if st[0] == "pipe":
+                steps += [("ptype", 0, cfg["pipe"]), ("ptype_bad", 0, (rng.choice(["DOUBLE_U_TUBE_PARALLEL", "SINGLE U-TUBE", "", "None"]), rng.random() < 0.5))]
+            if st[0] == "geom":
+                steps += [("gtype", 0, cfg["geom"][0]), ("gtype_bad", 0, (rng.choice(["HEXAGON", "near-square", ""]), rng.random() < 0.5))]
+            if st[0] == "fluid":
+                steps += [("fluid_bad", 0, (rng.choice(["Mercury", "water ", "Glycol"]), rng.random() < 0.5))]
+        jobs.append({"name": f"refused-calls-interleaved-{k}", "steps": steps})
     for nom in ([1.0, 500.0] if tier == "quick" else [1.0, 500.0, 96.0, 1e-3]):
         c2 = dict(cfg, nominal_height=nom)
         jobs.append({"name": f"nominal-height-{nom:g}", "steps": [("new",)] + full_run(0, c2, target=True)})
@@ -1054,6 +1142,18 @@ def check_variant(ctx, cname, base, res, model_out):
         if "strategy_conflict" in f:
             ctx.finding("search-path-not-a-function-of-config", f"{name}: two find_design calls with the same configuration took different search paths",
                         {"variant": res["name"], "paths": f["strategy_conflict"]})
+    for rf in res.get("refused", []):
+        ctx.count("refused_call:" + rf["call"] + ":" + rf["how"].replace(" ", "_"))
+        if rf["verdict"] != "refused":
+            ctx.disagreements_checked += 1
+            if "api-correspondence" not in ctx.broken:
+                ctx.broken.append("api-correspondence")
+                ctx.extra["api_first_disagreement"] = {"variant": name, "what": "a call the model refuses was accepted", "detail": rf}
+        if rf["changed"]:
+            ctx.finding(f"refused-call-changed-state:{rf['call']}",
+                        f"{name}: {rf['call']}({', '.join(repr(x) for x in rf['args'])}) was refused ({rf['how']}) but changed " +
+                        ", ".join(f"{a}: {v[0] if isinstance(v[0], str) else '<object>'} -> {v[1] if isinstance(v[1], str) else '<other object/content>'}" for a, v in rf["changed"].items()),
+                        {"variant": res["name"], "call": rf["call"], "args": rf["args"], "how": rf["how"], "changed": rf["changed"], "steps": res["ops"]})
     _, conflicts = sims_table(res["trace"])
     if conflicts:
         ctx.finding("simulate-not-a-function-of-arguments", f"{name}: same (configuration, field, heights, height) simulated to two temperature pairs {conflicts[0]}",
@@ -1066,6 +1166,11 @@ def check_variant(ctx, cname, base, res, model_out):
             ctx.extra["api_first_disagreement"] = {"variant": name, "what": what, "detail": detail}
 
     if model_out is not None:
+        # refused setter calls print `raise:<Error>`, refused set_design calls `design:m raise:<Error>`
+        m_ref = sum(1 for l in model_out.split(" ## ") if l.startswith("raise:")) + sum(1 for l in model_out.split(" ## ") if l.startswith("design:") and " raise:" in l)
+        i_ref = sum(1 for rf in res.get("refused", []) if rf["call"] != "find_design" and rf["verdict"] == "refused")
+        if m_ref != i_ref:
+            disagree("refused calls", {"model": m_ref, "impl": i_ref})
         lines = [l for l in model_out.split(" ## ") if l.startswith("find:")]
         if len(lines) != len(res["finds"]):
             disagree("number of finds", model_out[:400])
@@ -1144,7 +1249,7 @@ def run(ctx: core.Ctx):
     ctx.rule = ("GHE level: a case = one call sequence (setH / simulate HYBRID|HOURLY / size / compute_g_functions / assigning another g-function table; random of length <= 6, plus sequences that repeat a height and method around each state-changing operation) on one real GHE "
                 "(pipe kind, field size, 1 or 3 stored heights); distinct = distinct (pipe, boreholes, curves, operation sequence); every simulate/size is "
                 "non-trivial (compared with the same call on a GHE rebuilt from scratch).  Manager level: a case = one history variant of one configuration "
-                "(find twice, redesign, rebuilt manager, permuted/repeated setters, another design first on the same/another manager, nominal height, a manager re-used with only loads and/or geometry re-set after a first design that may raise, a design run directly after one that differs in exactly one physical input). One-input family, GHE level: a case = (input, direction, pipe kind), X then X' on new objects in one process vs X' in a fresh process; "
+                "(find twice, redesign, rebuilt manager, permuted/repeated setters, another design first on the same/another manager, nominal height, refused calls (unknown pipe/geometry/fluid/flow type, find_design when not ready) interleaved with full state dumps before/after, a manager re-used with only loads and/or geometry re-set after a first design that may raise, a design run directly after one that differs in exactly one physical input). One-input family, GHE level: a case = (input, direction, pipe kind), X then X' on new objects in one process vs X' in a fresh process; "
                 "non-trivial when the target find_design ran a search (>= 3 excess evaluations)")
     ctx.trusted_base += [
         "translator plug-in translate/gen_api.py (slot lists of set_design/find_design, writers of .H, keep_contour defaults, simulate's use of self.times)",
@@ -1201,8 +1306,8 @@ def run(ctx: core.Ctx):
     # quick tier: one pool round (16 histories); thorough: every variant of every configuration
     quick_plan = {
         "near-square": ["baseline", "same-manager-find-twice-redesign", "rebuilt-manager", "permuted-setters-0", "other-design-first-same-manager",
-                        "nominal-height-1", "nominal-height-500"],
-        "rectangle": ["baseline", "permuted-setters-0", "other-design-first-other-manager", "nominal-height-500"],
+                        "nominal-height-1", "nominal-height-500", "refused-calls-interleaved-0"],
+        "rectangle": ["baseline", "permuted-setters-0", "other-design-first-other-manager", "nominal-height-500", "refused-calls-interleaved-0"],
         "bi-rectangle-constrained": ["baseline", "same-manager-find-twice", "permuted-setters-0", "rebuilt-manager"],
     }
     for cname, cfg in cfgs.items():
